@@ -271,3 +271,14 @@ package hash
 //@ func (*sha2_384Algo).Algorithm mode int props C13 tags purego
 //@ assigns nothing
 //@ ensures result == SHA2_384
+
+// ---- Hash values
+//@ func (Hash).Equal mode int props C09 tags purego
+//@ assigns nothing
+//@ ensures result == (seqid(h) == seqid(input))
+
+//@ func (Hash).Hex mode int props C09 tags purego
+//@ assigns nothing
+
+//@ func (Hash).String mode int props C09 tags purego
+//@ assigns nothing
